@@ -224,3 +224,35 @@ func EnumHist05(t *testing.T) { runHistEnum(t, P05, nil) }
 func EnumHist19(t *testing.T) {
 	runHistEnum(t, P19, []Op{{Kind: "clone"}, {Kind: "resolve", Value: "/r"}})
 }
+
+// EnumHist01: every 2-step (quick) / 3-step (thorough) setter history followed by each of a few
+// references, through the lock-step resolution check.
+func EnumHist01(t *testing.T) {
+	shard, shards, _ := shardInfo()
+	depth := enumLen(2, 3)
+	failed := false
+	tails := []string{"x", "..", "/z", "?q", "C|/w", ""}
+	if depth == 3 {
+		tails = []string{"x", "..", "?q"}
+	}
+	enumHistories(depth, shard, shards, func(ops []Op) bool {
+		for _, st := range enumHistStarts {
+			for _, ref := range tails {
+				c := CaseHist{Input: B(st), Ops: append(append([]Op{}, ops...), Op{Kind: "resolve", Value: B(ref)})}
+				r := &core.Rec{}
+				core.Watch(P01h.ID, c)
+				core.SafeCheck(P01h, c, r)
+				core.Unwatch()
+				if core.Account(P01h.ID, c, r) {
+					failed = true
+					t.Errorf("VIOLATION %s (history enumeration): %s", P01h.ID, r.Message())
+					return false
+				}
+			}
+		}
+		return true
+	})
+	if !failed {
+		core.Extra("enumeration:C01-histories", map[string]interface{}{"starts": len(enumHistStarts), "steps": depth, "references": len(tails), "complete": true})
+	}
+}
